@@ -362,6 +362,26 @@ def _rand_case(rng, fn, malformed=False):
     else:
         root = rng.choice(names)
     n = 1 if fn == "addpath" else rng.randint(1, 12)
+    hidden = None
+    if not dup and rng.random() < 0.7:
+        # a hidden tree with pairwise different names: the pre-existing tree is a top part of it and the
+        # paths lead to its nodes, so that the call can succeed with duplicates disallowed
+        pool = [x for x in names if not (fn in ADD_FNS and any(ch in x for ch in d["tsep"]))]
+        pool = list(dict.fromkeys(pool + ["h%d" % i for i in range(30)]))
+        rng.shuffle(pool)
+        hsize = rng.randint(2, 25)
+        hshape = core.random_shape(rng, hsize)
+        ctr = itertools.count()
+        def hlab(sh):
+            return [pool[next(ctr)], {}, [hlab(x) for x in sh]]
+        hidden = hlab(hshape)
+        root = hidden[0]
+        if fn in ADD_FNS:
+            def top(t, keep):
+                kids = [top(k, keep * 0.6) for k in t[2] if rng.random() < keep]
+                return [t[0], _rand_attrs(rng, ["v", "w"], 0.3) if rng.random() < 0.3 else {}, kids]
+            tree = top(hidden, 0.8)
+            d.update(tree=tree, start=rng.choice([0, 0, rng.randrange(core.spec_size(tree))]))
     if fn in DF_FNS:
         cols = rng.choice([[], ["v"], ["v", "w"], ["w", "f"], ["v", "name"], ["age", "w", "f"]])
     elif fn in ("dict",):
@@ -377,6 +397,12 @@ def _rand_case(rng, fn, malformed=False):
             comps = list(rng.choice(items)[0])          # repeated path
             if rng.random() < 0.5 and len(comps) > 1:
                 comps = comps[:rng.randint(1, len(comps))]   # or a prefix of one
+        elif hidden is not None:
+            comps = [hidden[0]]
+            cur = hidden
+            while cur[2] and len(comps) < 7 and rng.random() < 0.8:
+                cur = rng.choice(cur[2])
+                comps.append(cur[0])
         else:
             comps = _rand_comps(rng, root, names, 7, tree)
         lead, trail = rng.random() < 0.4, rng.random() < 0.4
@@ -394,7 +420,7 @@ def _rand_case(rng, fn, malformed=False):
             if s not in seen:
                 seen.add(s); uniq.append(it)
         items = uniq
-    tags = [fn, "sep=" + sep, "dup" if dup else "nodup", "names=" + scheme]
+    tags = [fn, "sep=" + sep, "dup" if dup else "nodup", "names=" + ("hidden-distinct" if hidden is not None else scheme)]
     if malformed:
         kind = rng.choice(["diffroot", "diffroot", "empty", "emptycomp", "emptypath", "conflict"])
         if kind == "conflict" and (fn not in DF_FNS or not cols):
@@ -456,6 +482,22 @@ def _corpus():
     # "re-uses an uncle node for path components deeper than 3": equal names in different branches, depth >= 4
     uncle = [["a", "b", "c", "d", "e"], ["a", "x", "c", "d", "e"], ["a", "b", "y", "d", "e", "f"],
              ["a", "x", "c", "e", "d"], ["a", "b", "c", "d", "f"], ["a", "x", "y", "d", "e", "f", "g"]]
+    cousin = [["a", "b", "c", "d1", "e"], ["a", "b", "c", "d2", "e"], ["a", "b", "c", "x"], ["a", "b", "c", "y", "x"],
+              ["a", "b", "c", "y", "x", "z"], ["a", "b", "c", "d2", "e", "x"]]
+    for fn in FNS:
+        if fn == "addpath":
+            continue
+        its = [[p, False, False, ({"v": i} if fn != "list" else {})] for i, p in enumerate(cousin)]
+        d = {"fn": fn, "sep": "/", "dup": True, "items": its}
+        if fn in ADD_FNS:
+            d.update(tsep="/", start=0, tree=["a", {}, [["b", {}, [["c", {}, []]]]]])
+        if fn in DF_FNS:
+            d["pathpos"] = 0
+        out.append(mk(d, ("corpus", "cousin")))
+    for p, tr in ((["a", "b", "c", "d2", "e"], ["a", {}, [["b", {}, [["c", {}, [["d1", {}, [["e", {}, []]]], ["d2", {}, []]]]]]]]),
+                  (["a", "b", "c", "y", "x"], ["a", {}, [["b", {}, [["c", {}, [["x", {}, []], ["y", {}, []]]]]]]])):
+        out.append(mk({"fn": "addpath", "sep": "/", "dup": True, "tsep": "/", "tree": tr, "start": 0,
+                       "items": [[p, False, False, {"v": 3}]]}, ("corpus", "cousin")))
     for fn in FNS:
         for dup in (True, False):
             its = [[p, False, False, ({"v": i} if fn != "list" else {})] for i, p in enumerate(uncle)]
@@ -543,7 +585,22 @@ def shrink(case):
             yield mk(dict(d, tree=remove(spec, list(addr)), start=st - 1 if st > idx else st), case.tags)
 
 
-NOT_READY = True
-LEVEL_TEXT = ""
-LEVEL_NOTE = ""
-TECHNIQUE = ""
+NOT_READY = False
+LEVEL_TEXT = ("proof: Lean 4 kernel-checked theorems about the executable model of add_path_to_tree (address-based loop, "
+              "find_child_by_name resp. find_name over the whole tree + full-path comparison) and its folds: "
+              "paths_insert (node paths of the result = old paths + all prefixes of the given path, no path twice), "
+              "insert_keeps_ids (every old node keeps address, identity, name, path and attributes; the addressed node is "
+              "updated), insert_returns, attrs_exact / new_node_attrs / nulls_dropped_in_rows, different_root_refused, "
+              "strip_invariant and sep_invariant (string interface = component interface for a one-character separator "
+              "occurring in no name), no_dup_mode (duplicates disallowed: raises, or returns exactly the duplicates-allowed "
+              "result and keeps all names distinct), children_first_appearance (list_to_tree, both duplicate settings: node "
+              "set = prefix closure, each once, children of every node a sublist of the first-appearance list)")
+LEVEL_NOTE = ("the per-call theorems are stated for duplicate_name_allowed=True and transferred to False by no_dup_mode; "
+              "children_first_appearance assumes pairwise different path strings (list_to_tree removes exact repeats first); "
+              "dict_to_tree / dataframe_to_tree / polars_to_tree / add_*_by_path are the same fold (Lean: addMany, lemma "
+              "addMany_fold) and are covered for the node set and child order by that lemma, for root-attribute lookup, "
+              "null dropping through pandas/polars and duplicate-attribute refusal by the correspondence check only; "
+              "multi-character separators by the correspondence check only. The model is hand-written and tied to /repo by "
+              "differential testing of all eight functions against the compiled model")
+TECHNIQUE = ("machine-checked proof (Lean 4) on an executable model + differential correspondence check against the real "
+             "constructors (pandas and polars through the real libraries), model-free oracle on every case")
